@@ -580,6 +580,86 @@ def scenario_rewrite_path(ck, stats, k, action):
     rmtree_long(sb.root)
 
 
+def write_long(path, data):
+    """create a file whose absolute path may not fit in PATH_MAX (by relative steps)"""
+    d, n = os.path.split(path)
+    cwd = os.getcwd()
+    try:
+        os.chdir('/')
+        for comp in d.strip('/').split('/'):
+            os.chdir(comp)
+        with open(n, 'wb') as f:
+            f.write(data)
+    finally:
+        os.chdir(cwd)
+
+
+def scenario_move_flag(ck, stats, L, form):
+    """a destination of L characters - around NAME_MAX, far from PATH_MAX - used by a move that is merged with a flag action of the same rule:
+    the buffers the merge copies between have different sizes; a decoy maildir sits where the destination would be cut at NAME_MAX"""
+    sb = mdrun.Sandbox()
+    src = sb.maildir('src')
+    sb.add(src, 'cur' if form.endswith('flag new') else 'new', b'To: a\n\nmerge\n')
+    dst = deep_dir(sb.root, L)
+    if dst is None:
+        sb.cleanup(); return
+    decoys = []
+    for cut in (NAME_MAX, NAME_MAX + 1):
+        dec = dst[:cut].rstrip('/')
+        if len(dst) > cut and dec != dst and len(dec) > len(sb.root) + 1 and not dst.startswith(dec + '/'):
+            decoys.append(dec)
+    for d in [dst] + decoys:
+        for sub in ('new', 'cur', 'tmp'):
+            makedirs_long(d + '/' + sub)
+    conf = sb.write_conf(('maildir "%s" {\n match all %s\n}\n' % (src, form % dst)).encode())
+    rc, out, err = sb.run([], conf=conf)
+    stats['binary'] += 1
+    got = files_under(dst) or []
+    inde = [d for d in decoys if files_under(d)]
+    left = sb.snapshot(src)
+    rep = {'scenario': 'move_flag', 'length': L, 'form': form, 'exit': rc, 'stderr': err[-300:].decode(errors='replace')}
+    if inde:
+        ck.violation('destination of %d characters, rule "%s": the message was delivered to the maildir at the first %d characters of the destination (exit %d)'
+                     % (L, form % '<dst>', len(inde[0]), rc), rep)
+    elif rc == 0 and (len(got) != 1 or left):
+        ck.violation('destination of %d characters, rule "%s": exit 0 but the destination holds %d file(s), the source %d' % (L, form % '<dst>', len(got), len(left)), rep)
+    elif rc != 0 and (got or len(left) != 1):
+        ck.violation('destination of %d characters, rule "%s": exit %d but the destination holds %d file(s), the source %d' % (L, form % '<dst>', rc, len(got), len(left)), rep)
+    rmtree_long(sb.root)
+
+
+def scenario_defaultconf(ck, stats, H):
+    """no -f: the configuration is "$HOME/.mdsort.conf"; with HOME of H characters that name fits or is refused - decoy configurations
+    wait at every shortened spelling of it"""
+    sb = mdrun.Sandbox()
+    src = sb.maildir('src'); good = sb.maildir('good'); bad = sb.maildir('bad')
+    sb.add(src, 'new', b'To: a\n\ndefault configuration\n')
+    home = deep_dir(sb.root, H)
+    if home is None:
+        sb.cleanup(); return
+    makedirs_long(home)
+    real = 'maildir "%s" {\n match all move "%s"\n}\n' % (src, good)
+    decoy = 'maildir "%s" {\n match all move "%s"\n}\n' % (src, bad)
+    try:
+        write_long(home + '/.mdsort.conf', real.encode())
+        for n in ('.mdsort.con', '.mdsort.co', '.mdsort.c', '.mdsort.', '.mdsort'):
+            write_long(home + '/' + n, decoy.encode())
+    except OSError:
+        rmtree_long(sb.root); return
+    rc, out, err = sb.run([], conf=None, env={'HOME': home})
+    stats['binary'] += 1
+    fits = H + len('/.mdsort.conf') < PATH_MAX
+    ng, nb, left = len(sb.snapshot(good)), len(sb.snapshot(bad)), len(sb.snapshot(src))
+    rep = {'scenario': 'defaultconf', 'length': H, 'exit': rc, 'stderr': err[-300:].decode(errors='replace')}
+    if nb:
+        ck.violation('HOME of %d characters, no -f: mdsort followed the rules of a file at a shortened spelling of "$HOME/.mdsort.conf" (exit %d)' % (H, rc), rep)
+    elif fits and (rc != 0 or ng != 1):
+        ck.violation('HOME of %d characters, no -f: "$HOME/.mdsort.conf" fits (%d characters) but exit %d, delivered %d' % (H, H + 13, rc, ng), rep)
+    elif not fits and (rc == 0 or ng or left != 1):
+        ck.violation('HOME of %d characters, no -f: "$HOME/.mdsort.conf" does not fit, yet exit %d, delivered %d, left %d' % (H, rc, ng, left), rep)
+    rmtree_long(sb.root)
+
+
 def scenario_tmpdir_exec(ck, stats, L):
     """TMPDIR of length L and three messages piped to a command with exec stdin body: the temporary file "<TMPDIR>/mdsort-XXXXXXXX"
     either fits for every message or for none - the command never runs on a file created under a shortened name."""
@@ -674,6 +754,14 @@ def run(ck):
         scenario_env(ck, stats, 'TMPDIR', L)
     for L in range(PATH_MAX - 16 - 5, PATH_MAX - 16 + 5):
         scenario_tmpdir_exec(ck, stats, L)
+    # the merge of move and flag: destinations around NAME_MAX (the sub-directory buffer is that small, the maildir buffer is not)
+    forms = ['move "%s" flag new', 'move "%s" flag !new', 'flag new move "%s"', 'move "%s"']
+    for L in range(NAME_MAX - 4, NAME_MAX + 9, 1 if ck.tier == 'thorough' else 2):
+        for fi, form in enumerate(forms):
+            if ck.tier == 'thorough' or (L + fi) % 2 == 0 or fi < 2:
+                scenario_move_flag(ck, stats, L, form)
+    for H in range(PATH_MAX - 13 - 3, PATH_MAX - 13 + 4):
+        scenario_defaultconf(ck, stats, H)
     for k in (1, 2, 3, 5, 8, 12):
         scenario_rewrite_path(ck, stats, k, b'label' if k % 2 else b'add-header')
         if ck.tier == 'thorough':
@@ -683,7 +771,7 @@ def run(ck):
         'distinct_nontrivial': len(stats['nontrivial']),
         'rule': 'pathslice: every path of <= %d components from {"", a, bc, new, md.x} (absolute/relative, trailing slash, empty components) x beg,end in a symmetric '
                 'range x buffer sizes {0,1,2,64,len-1,len,len+1}; pathjoin: lengths around the buffer size; binary: maildir path, interpolated destination, interpolated isdirectory path (directories at the intended path and at its truncations), ~-expanded maildir / destination / isdirectory strings of every length PATH_MAX-3 .. PATH_MAX+2 (judged with -n and at run time), host name, '
-                'the path of a message rewritten by label / add-header and then piped to a command, 1-12 characters too long with a decoy file at its truncation, TMPDIR as the place of the exec stdin body temporary file over three messages (every length PATH_MAX-21 .. PATH_MAX-12), HOME and TMPDIR at every (quick: every other) length in a window around PATH_MAX / NAME_MAX with decoy maildirs at truncations. '
+                'destinations of NAME_MAX-4 .. NAME_MAX+8 characters under move merged with flag (decoy maildirs at the NAME_MAX cut), HOME lengths that put "$HOME/.mdsort.conf" at PATH_MAX-3 .. PATH_MAX+3 without -f (decoy configurations at the shortened names), the path of a message rewritten by label / add-header and then piped to a command, 1-12 characters too long with a decoy file at its truncation, TMPDIR as the place of the exec stdin body temporary file over three messages (every length PATH_MAX-21 .. PATH_MAX-12), HOME and TMPDIR at every (quick: every other) length in a window around PATH_MAX / NAME_MAX with decoy maildirs at truncations. '
                 'non-trivial = the reference returns a string; distinct = distinct requests' % (4 if ck.tier == 'quick' else 5),
         'exhaustive': True,
         'samples': [c for c, _ in cases[1000:1004]],
@@ -716,6 +804,10 @@ def replay(ck, rp):
         scenario_message_path(ck, stats, rp['k'], rp['rule'].encode())
     elif sc == 'hostname':
         scenario_hostname(ck, stats, rp['length'], rp.get('collide', 0))
+    elif sc == 'move_flag':
+        scenario_move_flag(ck, stats, rp['length'], rp['form'])
+    elif sc == 'defaultconf':
+        scenario_defaultconf(ck, stats, rp['length'])
     elif sc == 'rewrite_path':
         scenario_rewrite_path(ck, stats, rp['k'], rp['action'].encode())
     elif sc == 'TMPDIR-exec':
